@@ -3,7 +3,7 @@
 ENGINES = [
     {'name': 'pyvc', 'path': 'vf/pyvc',
      'serves_properties': ['C01', 'C02', 'C03', 'C04', 'C05', 'C06', 'C07', 'C11', 'C12', 'C13',
-                           'C14', 'C15', 'C16', 'C17', 'C19', 'C20'],
+                           'C14', 'C15', 'C16', 'C17', 'C18', 'C19', 'C20'],
      'kind_free_text': 'contract-based deductive verification: sidecar contracts (vf/contracts) on '
                        'the real functions; verification conditions generated from the AST of /repo '
                        'on every run (forward symbolic execution, path enumeration, modular calls '
@@ -112,7 +112,8 @@ CLAIMED = {
                      'pixels off the segment, masked or non-finite; the moment cutouts are zero '
                      'exactly there and on negative values; no SourceCatalog getter writes a field '
                      'another access reads; segment_fluxerr squares error maps of any dtype in '
-                     'float; the segmentation image labels/slices stay coherent '
+                     'float; a source counts as completely masked exactly when every pixel of '
+                     'its cutout is; the segmentation image labels/slices stay coherent '
                      'under renumbering. The defining formulas are checked bounded with an '
                      'exact-rational pixel-loop oracle incl. row locality.',
                 note='formulas bounded only; known finding F41 (thin-source covariance NaN)'),
@@ -185,8 +186,14 @@ CLAIMED = {
                      'compared with the float64 reference, units on outputs, unit mixes rejected.',
                 note='the proof covers integer wrap-around only, at four call sites; bounded '
                      'otherwise'),
-    'C16': dict(engine='coherence', technique=f'{_T} (getter purity, loop independence) + {_B}',
-                text='Proved: ApertureStats getters are pure and the per-aperture cutout loop has no '
+    'C16': dict(engine='coherence+pyvc', technique=f'{_T} (pixel set / weights / values of the '
+                                                   f'cutouts, getter purity, loop independence) + {_B}',
+                text='Proved for every aperture and pixel: data cutout k is the data under '
+                     'aperture k\'s box minus its own local background (None exactly without '
+                     'overlap, non-finite pixels kept); the total mask is "weight 0 or masked or '
+                     'non-finite", weights / weighted data / variances are the aperture weight '
+                     'times the value there and 0 elsewhere (error maps of any dtype squared in '
+                     'float); ApertureStats getters are pure and the per-aperture loop has no '
                      'loop-carried state. Every statistic is checked bounded against pixel-loop '
                      'oracles incl. tiny, off-image and fully masked apertures.',
                 note='statistics bounded only'),
@@ -194,13 +201,20 @@ CLAIMED = {
                                                  f'weights) + {_B}',
                 text='Proved: the per-source loop of centroid_sources has no loop-carried dependence '
                      '(each call is built from the original keywords), no centroid function '
-                     'modifies its arguments, and centroid_com weighs masked and non-finite pixels '
+                     'modifies its arguments, the data / mask / error cutouts and the peak hint '
+                     'handed to the centroid function for a source are those under that source\'s '
+                     'own box (footprint under the small slices), and centroid_com weighs masked '
+                     'and non-finite pixels '
                      'by exactly zero and every other pixel by its value. Exactness on symmetric / '
                      'quadratic sources is checked bounded.',
                 note='Gaussian fits bounded only'),
-    'C18': dict(engine='effects', technique=f'{_T} (frames, loop independence) + {_B}',
+    'C18': dict(engine='effects+pyvc', technique=f'{_T} (frames, loop independence, residual = '
+                                                 f'data - model data flow) + {_B}',
                 text='Proved: make_model_image / make_residual_image modify neither the model nor '
-                     'the table and the row loop carries only the declared accumulators. Exact '
+                     'the table and the row loop carries only the declared accumulators; for array '
+                     'input make_residual_image is, pixel by pixel, data minus the model image '
+                     'made for the same shape, psf_shape and include_localbkg (non-finite data '
+                     'stays non-finite). Exact '
                      'superposition, order invariance, additivity and units are checked bounded.',
                 note='model evaluation bounded only'),
     'C19': dict(engine='pyvc', technique=f'{_T} (monotone-prefix contract, coherence, frames) + '
